@@ -25,9 +25,10 @@ const (
 	EvCancel
 	EvWaitCall
 	EvWaitRet
+	EvJobCancel // the own context of job J was cancelled
 )
 
-var evNames = [...]string{"", "enqueue-call", "enqueue-ret", "start", "end", "cancel", "wait-call", "wait-ret"}
+var evNames = [...]string{"", "enqueue-call", "enqueue-ret", "start", "end", "cancel", "wait-call", "wait-ret", "job-context-cancelled"}
 
 // Ev is one entry of the harness history. Seq is a global sequence number
 // handed out while exactly one goroutine is running.
@@ -76,6 +77,12 @@ type schedRun struct {
 	// of the context to the external canceller (a user program has it by
 	// passing the cancel function along).
 	ctxPub atomic.Bool
+	// per-job contexts (JobD.Ctx != CtxShared): Done channel and cancel function, by job
+	jdone   []<-chan struct{}
+	jcancel []context.CancelFunc
+	// jpub mirrors the synchronisation a user needs to hand a job's cancel
+	// function to another job's body (store after creation, load before use)
+	jpub atomic.Bool
 }
 
 // Result of one run.
@@ -99,6 +106,7 @@ type Result struct {
 	InvViol                                       []Violation // invariant violations found during the run
 	Trace                                         []string
 	GoexitFired, ErrFired, CancelFired, StuckHeld int
+	JobCtxCancelled                               int
 	LateEnqAfterDone, LateEnqAfterFail            int
 }
 
@@ -131,7 +139,11 @@ func (sr *schedRun) bodyStart(r *runner, s, j int, ctx context.Context) {
 	if sr.inflight > sr.maxInfl {
 		sr.maxInfl = sr.inflight
 	}
-	if ctx.Value(ctxKey{}) != any(sr.token) || ctx.Done() != sr.ctx.Done() {
+	want := sr.ctx.Done()
+	if j < len(sr.jdone) && sr.jdone[j] != nil {
+		want = sr.jdone[j]
+	}
+	if ctx.Value(ctxKey{}) != any(sr.token) || ctx.Done() != want {
 		sr.ctxBad++
 	}
 }
@@ -171,6 +183,17 @@ func (sr *schedRun) setCtx(ctx context.Context, cancel context.CancelFunc) {
 //go:norace
 func (sr *schedRun) getCtx() (context.Context, context.CancelFunc) { return sr.ctx, sr.cancel }
 
+// jobCancel returns the cancel function of job k's own context once the
+// caller has created it (nil before).
+//
+//go:norace
+func (sr *schedRun) jobCancel(k int) context.CancelFunc { return sr.jcancel[k] }
+
+//go:norace
+func (sr *schedRun) setJobCtx(k int, done <-chan struct{}, cancel context.CancelFunc) {
+	sr.jdone[k], sr.jcancel[k] = done, cancel
+}
+
 type emitFn func(scheduler.State)
 
 func (f emitFn) Emit(s scheduler.State) { f(s) }
@@ -209,6 +232,17 @@ func (r *runner) body(si, ji int) func(context.Context) error {
 			_, cancel := sr.getCtx()
 			cancel()
 			sim.Yield(engine.HsAfter)
+		}
+		for k := range sr.d.Jobs {
+			if o := &sr.d.Jobs[k]; o.Ctx == CtxOwnCancelledBy && o.CtxBy == ji {
+				_ = sr.jpub.Load()
+				if c := sr.jobCancel(k); c != nil {
+					r.log(EvJobCancel, si, k)
+					r.noteFault(&r.res.JobCtxCancelled)
+					c()
+					sim.Yield(engine.HsAfter)
+				}
+			}
 		}
 		sr.bodyEnd(r, si, ji)
 		switch jd.Out {
@@ -256,6 +290,9 @@ func (r *runner) caller(si int) {
 	}
 	sched := cfg.New()
 	handles := make([]*scheduler.ScheduledJob, len(sd.Jobs))
+	// publication of the per-job cancel functions to the job bodies that use
+	// them (the user would hand them over through something synchronised)
+	jpub := &sr.jpub
 	enqueue := func(who int) {
 		for j := range sd.Jobs {
 			jd := &sd.Jobs[j]
@@ -270,9 +307,21 @@ func (r *runner) caller(si int) {
 			if sim.Aborted() {
 				return
 			}
+			jctx := ctx
+			if jd.Ctx != CtxShared {
+				var jcancel context.CancelFunc
+				jctx, jcancel = context.WithCancel(base)
+				sr.setJobCtx(j, jctx.Done(), jcancel)
+				jpub.Store(true)
+				if jd.Ctx == CtxOwnDead {
+					r.log(EvJobCancel, si, j)
+					r.noteFault(&r.res.JobCtxCancelled)
+					jcancel()
+				}
+			}
 			r.log(EvEnqCall, si, j)
 			sr.noteSubmit(len(deps) > 0)
-			handles[j] = sched.Enqueue(ctx, scheduler.Job{Run: r.body(si, j), Dependencies: deps})
+			handles[j] = sched.Enqueue(jctx, scheduler.Job{Run: r.body(si, j), Dependencies: deps})
 		}
 	}
 	enqueue(0)
@@ -343,7 +392,8 @@ func Exec(t *testing.T, d *Desc, replay bool, keepTrace bool, states map[uint64]
 	maxFreq := 0
 	for i := range d.Scheds {
 		sd := &d.Scheds[i]
-		sr := &schedRun{d: sd, limit: d.Limit(sd), token: new(int), states: make([]stateRep, 4096)}
+		sr := &schedRun{d: sd, limit: d.Limit(sd), token: new(int), states: make([]stateRep, 4096),
+			jdone: make([]<-chan struct{}, len(sd.Jobs)), jcancel: make([]context.CancelFunc, len(sd.Jobs))}
 		for j := range sd.Jobs {
 			sr.errs = append(sr.errs, &jobErr{i, j})
 		}
